@@ -30,6 +30,10 @@ type WriteDecision struct {
 	// Blackhole: the accepted bytes of this and all later writes never
 	// reach the broker (the connection died underway).
 	Blackhole bool
+	// GateAfter makes the call block after Accept bytes went out; when the
+	// connection gets closed meanwhile the call fails with the partial count,
+	// otherwise the remainder is accepted once the gate opens.
+	GateAfter string
 }
 
 // ReadDecision tells how a Read call proceeds.
@@ -211,6 +215,32 @@ func (c *Conn) Write(p []byte) (int, error) {
 	n := d.Accept
 	if n < 0 || n > len(p) {
 		n = len(p)
+	}
+	if d.GateAfter != "" && n < len(p) {
+		off := len(c.Out)
+		c.Out = append(c.Out, p[:n]...)
+		seq := w.log(Event{Kind: "write", Conn: c.Idx, Off: off, N: n, Data: p[:n], Note: "then gate " + d.GateAfter})
+		c.WriteSeqs = append(c.WriteSeqs, OffSeq{len(c.Out), seq})
+		if n > 0 && !c.blackhole {
+			c.OutSeen = len(c.Out)
+			w.Broker.receive(c, p[:n])
+		}
+		w.waitGate(w.Gate(d.GateAfter), func() bool { return c.closed })
+		if c.closed {
+			w.log(Event{Kind: "write", Conn: c.Idx, Off: len(c.Out), Err: "closed"})
+			return n, &net.OpError{Op: "write", Net: "sim", Err: net.ErrClosed}
+		}
+		p2 := p[n:]
+		off = len(c.Out)
+		c.Out = append(c.Out, p2...)
+		seq = w.log(Event{Kind: "write", Conn: c.Idx, Off: off, N: len(p2), Data: p2})
+		c.WriteSeqs = append(c.WriteSeqs, OffSeq{len(c.Out), seq})
+		if !c.blackhole {
+			c.OutSeen = len(c.Out)
+			w.Broker.receive(c, p2)
+		}
+		w.cond.Broadcast()
+		return len(p), nil
 	}
 	then := d.Then
 	if then == "timeout" && !c.wdl {
